@@ -9,6 +9,7 @@ mod f3;
 mod failpath;
 mod fsm;
 mod gate;
+mod cgen;
 mod img;
 mod inflight;
 mod migr;
@@ -46,6 +47,7 @@ fn main() {
         "abuf" => abuf::run(&opts),
         "abufallocchild" => abuf::allocchild(&opts),
         "gate" => gate::run(&opts),
+        "cgen" => cgen::run(&opts),
         "failpath" => failpath::run(&opts),
         "failpathchild" => failpath::child(&opts),
         "scansched" => scansched::run(&opts),
